@@ -58,6 +58,7 @@ type docOut struct {
 	Str    *string     `json:"str,omitempty"`
 	U64    *string     `json:"u64,omitempty"`
 	I64    *string     `json:"i64,omitempty"`
+	Bool   *bool       `json:"bool,omitempty"`
 	Native []nativeOut `json:"native,omitempty"`
 	Res    string      `json:"res"`
 }
@@ -171,7 +172,12 @@ func nearMisses(r *rand.Rand, e *EnumDef, k int) []string {
 	}
 	for i := 0; i < k && len(names) > 0; i++ {
 		n := names[r.IntN(len(names))]
-		switch r.IntN(9) {
+		switch r.IntN(10) {
+		case 9:
+			// code points whose Unicode lower-case form is an ASCII letter (U+212A KELVIN SIGN -> k,
+			// U+0130 -> i) or is not (U+212B ANGSTROM SIGN -> U+00E5, U+017F long s, U+00C4): under
+			// -caseInsensitive strings.ToLower folds the first two into the name
+			out = append(out, unicodeVariant(r, n))
 		case 0:
 			out = append(out, n+"x")
 		case 1:
@@ -208,6 +214,28 @@ func nearMisses(r *rand.Rand, e *EnumDef, k int) []string {
 	return out
 }
 
+// unicodeVariant replaces one letter of the name by a non-ASCII code point related to it by case mapping.
+func unicodeVariant(r *rand.Rand, n string) string {
+	subst := map[byte][]string{
+		'k': {"\u212a"}, 'K': {"\u212a"}, 'i': {"\u0130"}, 'I': {"\u0130"},
+		'a': {"\u212b", "\u00c4", "\u00c5"}, 'A': {"\u212b", "\u00c4", "\u00e5"},
+		's': {"\u017f", "\u1e9e"}, 'S': {"\u017f", "\u1e9e"}, 'y': {"\u0178"}, 'Y': {"\u0178", "\u00ff"},
+		'o': {"\u00d6"}, 'O': {"\u00f6"}, 'e': {"\u00c9"}, 'E': {"\u00e9"},
+	}
+	var idx []int
+	for i := 0; i < len(n); i++ {
+		if _, ok := subst[n[i]]; ok {
+			idx = append(idx, i)
+		}
+	}
+	if len(idx) == 0 {
+		return n + "\u212a"
+	}
+	i := idx[r.IntN(len(idx))]
+	alts := subst[n[i]]
+	return n[:i] + alts[r.IntN(len(alts))] + n[i+1:]
+}
+
 func uniq(xs []string) []string {
 	seen := map[string]bool{}
 	var out []string
@@ -220,13 +248,26 @@ func uniq(xs []string) []string {
 	return out
 }
 
+// printable: no control characters (non-ASCII UTF-8 is fine inside quoted JSON / YAML strings)
 func printable(s string) bool {
 	for i := 0; i < len(s); i++ {
-		if s[i] < 32 || s[i] > 126 {
+		if s[i] < 32 || s[i] == 127 {
 			return false
 		}
 	}
-	return true
+	return !strings.Contains(s, "\u2028") && !strings.Contains(s, "\u2029")
+}
+
+// foldVariants: the name with the first k / i / a / s (either case) replaced by a code point that
+// strings.ToLower maps to that letter (KELVIN SIGN, U+0130) or to something else (ANGSTROM SIGN, long s)
+func foldVariants(n string) []string {
+	var out []string
+	for _, p := range []struct{ set, rep string }{{"kK", "\u212a"}, {"iI", "\u0130"}, {"aA", "\u212b"}, {"sS", "\u017f"}} {
+		if i := strings.IndexAny(n, p.set); i >= 0 {
+			out = append(out, n[:i]+p.rep+n[i+1:])
+		}
+	}
+	return out
 }
 
 // planFor chooses the inputs tried on one enum.
@@ -281,8 +322,11 @@ func planFor(r *rand.Rand, fd *FileDef, e *EnumDef, mode string) *enumPlan {
 	}
 	// ---- strings for the parsers
 	var strs []string
-	for _, c := range e.Consts {
+	for i, c := range e.Consts {
 		strs = append(strs, c.Name, strings.ToLower(c.Name), strings.ToUpper(c.Name), swapCase(c.Name))
+		if i < 8 {
+			strs = append(strs, foldVariants(c.Name)...)
+		}
 	}
 	nm := 50
 	if mode != "c04" {
@@ -340,13 +384,18 @@ func planFor(r *rand.Rand, fd *FileDef, e *EnumDef, mode string) *enumPlan {
 			words = append(words, randWord(r))
 		}
 		words = append(words, "", "garbage", "0", "1", "7", "-1", "255", "256", "257", "65537", "4294967297",
-			"18446744073709551615", "-9223372036854775808", "1.5", "1e3", "0x10", "+3", "007", "true", "~x")
+			"18446744073709551615", "-9223372036854775808", "1.5", "1e3", "0x10", "+3", "007", "true", "~x",
+			// what strconv.ParseBool / YAML 1.1 accept as booleans, other number notations, the int64/uint64 seam
+			"false", "t", "f", "T", "F", "TRUE", "FALSE", "True", "False", "yes", "no", "on", "off", "y", "n", "Y", "N",
+			"0o17", "0b101", "1_000", "-0", "1.0", "2.0", ".5", ".inf", ".nan", "9223372036854775807", "9223372036854775808",
+			"-9223372036854775809", "18446744073709551616", "-18446744073709551615")
 		for _, c := range e.Consts {
 			if r.IntN(3) == 0 {
 				words = append(words, c.Val)
 			}
 			if r.IntN(3) == 0 {
 				words = append(words, strings.ToLower(c.Name), swapCase(c.Name))
+				words = append(words, foldVariants(c.Name)...)
 			}
 			for _, cl := range c.Cells {
 				// numerals / strings of traits (parsable or not)
@@ -354,13 +403,20 @@ func planFor(r *rand.Rand, fd *FileDef, e *EnumDef, mode string) *enumPlan {
 					words = append(words, cl.Str)
 				} else if cl.Kind == "int" {
 					words = append(words, cl.Int)
+					// numbers that WRAP to the trait value under Go's conversions at the trait type's width
+					// and at 64 bits (the width of the decoders' readings): out of range, must be rejected
+					// (not silently mapped).  For a uint64 trait 2^64-1 that is -1, for 2^63 it is -2^63.
+					v, _ := new(big.Int).SetString(cl.Int, 10)
+					widths := []int{64}
 					if b := narrowBits(cl.Ty); b > 0 {
-						// numbers that WRAP to the trait value under Go's conversion: out of range,
-						// must be rejected (not silently mapped)
-						v, _ := new(big.Int).SetString(cl.Int, 10)
+						widths = append(widths, b)
+					}
+					for _, b := range widths {
 						m := new(big.Int).Lsh(bigOf(1), uint(b))
-						words = append(words, new(big.Int).Add(v, m).String(), new(big.Int).Sub(v, m).String(),
-							new(big.Int).Add(v, new(big.Int).Lsh(m, 1)).String())
+						words = append(words, new(big.Int).Add(v, m).String(), new(big.Int).Sub(v, m).String())
+						if b < 64 {
+							words = append(words, new(big.Int).Add(v, new(big.Int).Lsh(m, 1)).String())
+						}
 					}
 				} else if cl.Kind == "bool" {
 					if cl.Bool {
@@ -374,6 +430,14 @@ func planFor(r *rand.Rand, fd *FileDef, e *EnumDef, mode string) *enumPlan {
 		// the literal null: json.Unmarshal "reads" "" and 0 from it; YAML null never reaches the decoder
 		p.JDocs = append(p.JDocs, "null", " null ")
 		p.YDocs = append(p.YDocs, "null", "~")
+		// documents that hold no scalar at all: JSON arrays / objects, YAML sequences / mappings (yaml.v3
+		// hands those nodes to UnmarshalYAML with Value ""), also with a defined name inside
+		first := ""
+		if len(e.Consts) > 0 {
+			first = e.Consts[0].Name
+		}
+		p.JDocs = append(p.JDocs, "[]", "{}", "[1]", `{"a": 1}`, `["`+first+`"]`, `{"`+first+`": 0}`, "[[]]")
+		p.YDocs = append(p.YDocs, "[]", "{}", "[1, 2]", "{a: b}", "- x\n- y", "["+first+"]", first+": 1", "[[]]", "- ''")
 		words = uniq(words)
 		sort.Strings(words)
 		numeric := func(w string) bool {
